@@ -68,8 +68,23 @@ func runC33(r *Run) {
 		{[]string{"10.0.0.0/33"}, false},
 		{[]string{"10.0.0.1/8"}, true}, // host bits set: a valid CIDR, masked
 		{[]string{"fe80::1"}, true},
+		// IPv4-mapped forms, whatever the prefix length or spelling
+		{[]string{"::ffff:10.0.0.0/8"}, false},
+		{[]string{"::ffff:10.0.0.0/40"}, false},
+		{[]string{"::ffff:192.168.0.0/95"}, false},
+		{[]string{"::ffff:10.0.0.0/96"}, false},
+		{[]string{"::ffff:10.1.2.3"}, false},
+		{[]string{"10.0.0.0/8", "::ffff:a00:0/64"}, false},
+		// nothing configured (nil, or an explicitly empty list): the documented defaults apply
+		{nil, true},
+		{[]string{}, true},
 	}
 	tl := lists[r.W.Pick(len(lists))]
+	refEntries := tl.entries
+	if len(refEntries) == 0 {
+		// config.yml: "Defaults to the loopback, private and link-local networks ..."
+		refEntries = []string{"127.0.0.0/8", "::1/128", "10.0.0.0/8", "172.16.0.0/12", "192.168.0.0/16", "169.254.0.0/16", "fc00::/7", "fe80::/10"}
+	}
 	cfg := config.DefaultConfig
 	cfg.OnlineMode = false
 	cfg.ProxyProtocol = true
@@ -100,10 +115,10 @@ func runC33(r *Run) {
 	peers := []struct {
 		ip   string
 		zone string
-	}{{"10.1.2.3", ""}, {"192.168.1.5", ""}, {"192.168.1.6", ""}, {"::ffff:10.7.7.7", ""}, {"2001:db8:5::1", ""}, {"2001:db9::1", ""}, {"203.0.113.9", ""}, {"fe80::1", "eth0"}, {"172.20.1.1", ""}, {"10.9.3.3", ""}}
+	}{{"10.1.2.3", ""}, {"192.168.1.5", ""}, {"192.168.1.6", ""}, {"::ffff:10.7.7.7", ""}, {"2001:db8:5::1", ""}, {"2001:db9::1", ""}, {"203.0.113.9", ""}, {"fe80::1", "eth0"}, {"172.20.1.1", ""}, {"10.9.3.3", ""}, {"::1", ""}, {"127.0.0.1", ""}, {"fd00::5", ""}, {"100::1", ""}}
 	pe := peers[r.W.Pick(len(peers))]
 	peerIP := net.ParseIP(pe.ip)
-	trusted := refTrusted(tl.entries, peerIP)
+	trusted := refTrusted(refEntries, peerIP)
 	headerKind := r.W.Pick(4) // 0 none, 1 v1, 2 v2, 3 v1
 	srcIP, srcPort := "198.51.100.23", 51111
 	var header []byte
